@@ -97,7 +97,10 @@ Min2(a, b) == IF a < b THEN a ELSE b
 ChunkChoices(left) == {c \in {0, 1, 2, left \div 2, left - 1, left} : c >= 0 /\ c <= left /\ c <= 65535}
 
 (* ---------------- class definitions ---------------- *)
-DefIndex(t) == LET S == {i \in 1..Len(cls) : cls[i].t = t} IN IF S = {} THEN 0 ELSE CHOOSE i \in S : TRUE
+(* the definition an instance of type t uses: the LATEST one for its class (a stream may *)
+(* define a class again, e.g. with another field order; earlier instances keep theirs)  *)
+DefsOf(t) == {i \in 1..Len(cls) : cls[i].t = t}
+DefIndex(t) == IF DefsOf(t) = {} THEN 0 ELSE CHOOSE i \in DefsOf(t) : \A j \in DefsOf(t) : j <= i
 ShortStr(b) == <<Len(b)>> \o b                      \* names are ASCII and shorter than 32 here
 Droppable(ty, j) == Ty(ty.ft[j]).kind \in {"bool", "int", "int8", "int16", "int32", "int64", "uint", "uint8",
                                             "uint16", "uint32", "uint64", "float32", "float64", "string", "bytes", "time"}
@@ -194,10 +197,13 @@ EmitRef == /\ todo # <<>> /\ Top.k = "slot" /\ IsPtr(Top.s) /\ bind[Top.s.i] # -
 
 (* a class definition just before the first instance of its class *)
 EmitDef == /\ todo # <<>> /\ Top.k = "slot" /\ IsPtr(Top.s) /\ bind[Top.s.i] = -1 /\ PreDefsOK
-           /\ Node(Top.s).k = "obj" /\ DefIndex(Node(Top.s).t) = 0
-           /\ LET t == Node(Top.s).t  ty == Ty(t) IN
+           /\ Node(Top.s).k = "obj"
+           /\ \/ DefIndex(Node(Top.s).t) = 0
+              \/ (DefMode = "vary" /\ Cardinality(DefsOf(Node(Top.s).t)) = 1)      \* define the class a second time
+           /\ LET t == Node(Top.s).t  ty == Ty(t)  again == DefIndex(t) # 0 IN
               \E order \in Orders(ty) : \E upper \in (IF DefMode = "vary" THEN {FALSE, TRUE} ELSE {FALSE}) :
-                 /\ Pick(Opt(<<>>, IF upper \/ order # [j \in 1..Len(ty.fn) |-> j] THEN 1 ELSE 0))
+                 /\ (again => order # cls[DefIndex(t)].order)
+                 /\ Pick(Opt(<<>>, IF again \/ upper \/ order # [j \in 1..Len(ty.fn) |-> j] THEN 1 ELSE 0))
                  /\ out' = out \o DefOctets(ty, order, upper)
                  /\ cls' = Append(cls, [t |-> t, order |-> order])
            /\ UNCHANGED <<vi, todo, typ, bind, nref, dropped, done>>
@@ -259,12 +265,15 @@ EmitMap ==
   /\ todo # <<>> /\ Top.k = "slot" /\ IsPtr(Top.s) /\ bind[Top.s.i] = -1 /\ PreDefsOK
   /\ Node(Top.s).k = "map"
   /\ LET N == Node(Top.s)  ty == Ty(N.t)  n == Len(N.m)
-         ktd == Ty(ty.key).kind # "iface"   vtd == Ty(ty.elem).kind # "iface"
+         canTyped == ty.named = 1 /\ ty.hasreg = 1
+         (* entries have a typed destination only if the map itself has one: an unnamed map *)
+         (* outside a typed destination is read as a generic map                            *)
+         dtd == Top.td \/ canTyped
+         ktd == dtd /\ Ty(ty.key).kind # "iface"   vtd == dtd /\ Ty(ty.elem).kind # "iface"
          fwd == [j \in 1..(2 * n) |-> IF j % 2 = 1 THEN Slot(N.m[(j + 1) \div 2][1], ktd)
                                                      ELSE Slot(N.m[j \div 2][2], vtd)]
          bwd == [j \in 1..(2 * n) |-> IF j % 2 = 1 THEN Slot(N.m[n - ((j + 1) \div 2) + 1][1], ktd)
                                                      ELSE Slot(N.m[n - (j \div 2) + 1][2], vtd)]
-         canTyped == ty.named = 1 /\ ty.hasreg = 1
      IN /\ bind' = [bind EXCEPT ![Top.s.i] = nref] /\ nref' = nref + 1
         /\ \E ord \in (IF Wide /\ n > 1 THEN {fwd, bwd} ELSE {fwd}) :
              /\ \/ (~canTyped /\ Pick(Opt(<<>>, IF ord = fwd THEN 0 ELSE 1)) /\ out' = out \o <<72>> /\ typ' = typ)
